@@ -31,11 +31,12 @@ from terms import Term
 import c18_refuse
 import c18_cont
 import c18_multi
+import c18_fault
 
 PID = "C18"
-PROPS = ["PfModel.Props.C18", "PfModel.Props.C18Calls", "PfModel.Props.C18Refused", "PfModel.Props.C18Cont", "PfModel.Props.C18Multi"]
+PROPS = ["PfModel.Props.C18", "PfModel.Props.C18Calls", "PfModel.Props.C18Refused", "PfModel.Props.C18Cont", "PfModel.Props.C18Multi", "PfModel.Props.C18Fault"]
 DRIVER = "C18"
-EXTRA_BUILD = ["PfModel.DriverC18Refuse", "PfModel.DriverC18Cont", "PfModel.DriverC18Multi"]   # imported by Driver/C18.lean only
+EXTRA_BUILD = ["PfModel.DriverC18Refuse", "PfModel.DriverC18Cont", "PfModel.DriverC18Multi", "PfModel.DriverC18Fault"]   # imported by Driver/C18.lean only
 RULE = ("sessions on random DAGs of 1-6 term-building functions (nullary, tuple outputs, shared parameters, defaults, bound values, "
         "renames) built with lazy=True: 1-4 lazy calls (every output is requested across sessions; keyword sets are root arguments or "
         "a listed argument combination cutting through intermediates; whole-tuple requests), inside 0-2 construct_dag() blocks (several "
@@ -57,7 +58,11 @@ RULE = ("sessions on random DAGs of 1-6 term-building functions (nullary, tuple 
         "compared with PF.Lazy.evaluateCont (Model/LazyCont.lean), plus Pipeline.func / PipeFunc-level calls / chained lazy pipelines / NestedPipeFunc against the eager twin; "
         "stream multi (harness/c18_multi.py): 2-3 lazy pipelines (distinct random DAGs, 40 % with a twin = the same DAG with other function names) in one process, "
         "3-8 well-formed calls interleaved inside one / across two blocks / outside any block, each object evaluated 0-2 times anywhere after its call, compared "
-        "with PF.Lazy.GSt (non-trivial when two pipelines are called inside one block)")
+        "with PF.Lazy.GSt (non-trivial when two pipelines are called inside one block); "
+        "stream fault (harness/c18_fault.py): 1-3 lazy calls (outside / inside one block) followed by steps that switch a set of RAISING user functions "
+        "on and off (transient: off before the retry; permanent: stays) and evaluate() steps (retry on the same object, another consumer of the failed node): "
+        "a returned value is the eager value, evaluate() raises iff a needed function that has not returned raises, each needed function returns exactly once; "
+        "raised / value, the invocation log and the _evaluated flags after every step are compared with PF.Lazy.evaluateF (non-trivial when an evaluate() raised)")
 ASSUMPTIONS = ["the pipeline's own cache (cache_type None/simple/lru/hybrid/disk x cache=True on none/some/all functions) is modelled below its size "
                "limit (an unbounded most-recent-first list); what a refused call leaves in it is modelled in the stream 'refused' only (the main stream "
                "ends the modelled session at the first refused call)",
@@ -70,7 +75,8 @@ ASSUMPTIONS = ["the pipeline's own cache (cache_type None/simple/lru/hybrid/disk
                "the model's arguments are flat (a value or a node id)",
                "the container stream models evaluate_lazy on list/tuple/dict/set trees (a set in the real set's iteration order, which the harness supplies); "
                "container subclasses and what a PipeFunc-level call does with deferred arguments are checked on the implementation only",
-               "values are uninterpreted terms; user functions do not raise",
+               "values are uninterpreted terms; user functions do not raise, except in the stream 'fault', where a function raises while the harness has it "
+               "switched to faulty (the fault depends on the switch only, not on the arguments or the invocation count)",
                "ids are compared relative to _LazyFunction._counter at the start of the session"]
 
 
@@ -1196,6 +1202,7 @@ def _run(ctx):
     c18_refuse.check(ctx, rng, ctx.n(40, 800))
     c18_cont.check(ctx, rng, ctx.n(40, 800))
     c18_multi.check(ctx, rng, ctx.n(40, 800))
+    c18_fault.check(ctx, rng, ctx.n(50, 1000))
 
 
 def replay(ctx, case):
@@ -1206,6 +1213,9 @@ def replay(ctx, case):
         return c18_cont.replay_one(ctx, case)
     if case.get("stream") == "multi":
         c18_multi.replay_one(ctx, case)
+        return
+    if case.get("stream") == "fault":
+        c18_fault.replay_one(ctx, case)
         return
     if case.get("stream") == "container-input":
         x, y = CONTAINERS[case["x"]](), CONTAINERS[case["y"]]()
